@@ -4,8 +4,8 @@
    reference semantics Spec.v on generated syntax trees (end to end, all starts, all captures).  What is *proved* about
    that last link are the single-character atoms, carried all the way from the atom as written to the bytes of the
    text: a literal character (with and without i, Unicode and legacy mode), the dot, and a v-mode class expression
-   without \q strings (this one in both directions), concatenations of these atoms, and alternations of such
-   concatenations.  On any well-formed UTF-8 text, with the cursor in front of a character, the
+   without \q strings (this one in both directions), the assertions ^ $ \b \B, concatenations of these, and alternations of such concatenations
+   (c01_fragment_is_the_reference).  On any well-formed UTF-8 text, with the cursor in front of a character, the
    IR node the parser model emits for the class (Model/ClassSet.v, tied to parse.rs by IR equality on every generated
    expression) and the reference semantics of the class take the same decision on that character and move to
    corresponding positions - the reference from character index i to i+1, the IR from the byte offset of character i
@@ -105,6 +105,29 @@ Theorem c01_alternation_of_sequences_is_the_reference : forall foldf unicode utf
   den foldf unicode utf16 cs eqclass (alt_of (map seq_of rss)) (make_alt fuel (map make_cat nss))
       (catP (map (fun ts i => pchain cs ts [i]) tss)) (m + length rss) (1 + fuel).
 Proof. exact alternation_of_terms. Qed.
+
+(* the same with the assertions ^ $ \b \B among the atoms (a general atom denotes a list of positions: one step ahead
+   for a character atom, the position itself or nothing for an assertion): the fragment of patterns built from
+   literal characters, the dot, string-free v-mode classes and the four assertions by concatenation and alternation *)
+Theorem c01_fragment_is_the_reference : forall foldf unicode utf16 cs eqclass, wf_text cs ->
+  forall rss nss Pss, Forall3 (Forall3 (gatom foldf unicode utf16 cs eqclass)) rss nss Pss -> rss <> [] ->
+  forall fuel, (length nss <= fuel)%nat -> forall m, Forall (fun rs => (length rs <= m)%nat) rss ->
+  den foldf unicode utf16 cs eqclass (alt_of (map seq_of rss)) (make_alt fuel (map make_cat nss))
+      (catP (map (fun Ps i => gchain Ps [i]) Pss)) (m + length rss) (1 + fuel).
+Proof. intros foldf unicode utf16 cs eqclass _. exact (alternation_of_gterms foldf unicode utf16 cs eqclass). Qed.
+
+Theorem c01_general_atoms : forall foldf unicode utf16 cs eqclass, wf_text cs ->
+  (forall r n t, atom foldf unicode utf16 cs eqclass r n t -> gatom foldf unicode utf16 cs eqclass r n (posD cs t)) /\
+  (forall ml, gatom foldf unicode utf16 cs eqclass (RBol ml) (NAnchor true ml) (assertP (bol_cond cs ml))) /\
+  (forall ml, gatom foldf unicode utf16 cs eqclass (REol ml) (NAnchor false ml) (assertP (eol_cond cs ml))) /\
+  (forall inv extra, gatom foldf unicode utf16 cs eqclass (RWordB inv extra) (NWordBoundary inv extra) (assertP (wb_cond cs inv extra))).
+Proof.
+  intros foldf unicode utf16 cs eqclass Hw. split; [|split; [|split]].
+  - intros r n t Ha. exact (atom_gatom foldf unicode utf16 cs eqclass r n t Ha).
+  - intros ml. exact (bol_is_gatom foldf unicode utf16 cs Hw eqclass ml).
+  - intros ml. exact (eol_is_gatom foldf unicode utf16 cs Hw eqclass ml).
+  - intros inv extra. exact (wordb_is_gatom foldf unicode utf16 cs Hw eqclass inv extra).
+Qed.
 
 (* the three kinds of atoms *)
 Theorem c01_atoms : forall foldf utf16 cs, wf_text cs ->
